@@ -68,12 +68,14 @@ class FatalScenario:
         # reach its file all the same
         self.filtered = rnd.randrange(nsinks) if (self.config != "oneline" and rnd.random() < 0.35) else -1
         self.list_every = self.nmsgs <= 40
+        # a housekeeping thread called flush() earlier and is still inside a slow sink at the end of the walk
+        self.bgflush = self.config != "oneline" and rnd.random() < 0.3
 
     def to_json(self, root):
         return {"id": self.id, "root": str(root), "config": self.config, "sinks": self.sinks, "now": R.ms_of(2, 100),
                 "msgs": [R.b64(self.payload[i]) for i in range(1, self.nmsgs + 1)], "fatal": R.b64(self.payload[self.nmsgs + 1]),
                 "fatalThread": self.fatal_thread, "listEvery": self.list_every, "badflush": self.badflush,
-                "filtered": self.filtered, "fatalPrefix": f"r{self.nmsgs + 1}:"}
+                "filtered": self.filtered, "fatalPrefix": f"r{self.nmsgs + 1}:", "bgflush": self.bgflush}
 
     def behind_filter(self):
         """the sinks the fatal message does not reach: the one behind the filter, and in the nested configuration also
@@ -89,6 +91,7 @@ class FatalScenario:
     def describe(self):
         return {"id": self.id, "config": self.config, "sinks": self.sinks, "messages": self.nmsgs, "fatal_thread": self.fatal_thread, "a_sink_whose_flush_fails_comes_first": self.badflush,
                 "sink_behind_a_filter_that_rejects_the_fatal_message": self.filtered,
+                "another_thread_is_inside_flush_in_a_slow_last_sink": self.bgflush,
                 "fatal_bytes": len(self.payload[self.nmsgs + 1])}
 
 
